@@ -74,6 +74,22 @@ def generate(rng, tier):
             c["xin"][len(c["xin"]) // 2] = float("nan")
             c["int_dtype"] = [False, c["int_dtype"][1], c["int_dtype"][2]]
             c["desc"]["grid"] = str(c["desc"]["grid"]) + "+nan_abscissa"
+        if i % 10 == 1 and len(c["xin"]) >= 4 and not c["omitted"] and not (i % 6 == 5) and sorted(c["xin"]) == c["xin"]:
+            # two banks joined end to end: one abscissa occurs twice, with different samples (both are in every closed interval that holds it)
+            k = len(c["xin"]) // 2
+            c["xin"] = c["xin"][:k + 1] + [c["xin"][k]] + c["xin"][k + 1:]
+            c["yin"] = c["yin"][:k + 1] + [2.0 * c["yin"][k] + 1.0] + c["yin"][k + 1:]
+            if c["dy"] is not None:
+                c["dy"] = c["dy"][:k + 1] + [2.0 * c["dy"][k] + 0.5] + c["dy"][k + 1:]
+            c["int_dtype"] = [c["int_dtype"][0], False, c["int_dtype"][2]]
+            if (i // 10) % 3 == 1:
+                c["xmin"] = c["xin"][k]                   # the repeated value is the lower edge
+                if c["xmax"] is not None and c["xmax"] <= c["xmin"]:
+                    c["xmax"] = None
+            elif (i // 10) % 3 == 2 and not c["lorch"]:
+                c["xmin"] = c["xmax"] = None
+            c["desc"]["n"] = len(c["xin"])
+            c["desc"]["grid"] = str(c["desc"]["grid"]) + "+repeated_abscissa"
         cases.append(c)
     return cases
 
@@ -123,6 +139,14 @@ def oracle(pystog, case, res):
         _, y2, e2 = F.call_ft(pystog, case, xin=want[0], yin=want[1], dy=want[2], xmin=lo, xmax=hi)
         if not (np.array_equal(y2, ref[0], equal_nan=True) and np.array_equal(e2, ref[1], equal_nan=True)):
             return "transform of the pre-cropped data differs from the windowed transform"
+    if not case["omitted"] and len(want[0]) >= 1 and all(v == v and abs(v) != float("inf") for v in list(want[0]) + list(want[1]) + [hi]) and (not case["lorch"] or hi != 0):
+        # exactly the in-window points, each with its own sample: the trapezoid sum over the kept points (independent quadrature;
+        # with Lorch the samples carry the weight sin(ax)/(ax), a = pi / upper limit)
+        yk = list(want[1]) if not case["lorch"] else [v * F.lorch_w(np.pi / hi, u) for u, v in zip(want[0], want[1])]
+        for xp, v in zip(case["xout"], res["yout"]):
+            w_, mag = F.trapz_sine(list(want[0]), yk, xp)
+            if abs(v - w_) > 1e-9 * mag + 1e-300:
+                return "value %r at x'=%r is not the trapezoid sum %r over the %d points inside the window" % (v, xp, w_, len(want[0]))
     for fill in (float("nan"), float("inf")):
         yb = [v if lo <= u <= hi else fill for u, v in zip(x, y)]
         eb = [v if lo <= u <= hi else fill for u, v in zip(x, e)]
